@@ -1,4 +1,6 @@
-use crate::wal::config::{MAX_FILE_SIZE, now_millis_str, sanitize_namespace, wal_data_dir};
+use crate::wal::config::{
+    MAX_FILE_SIZE, note_existing_file_millis, now_millis_str, sanitize_namespace, wal_data_dir,
+};
 use std::cell::RefCell;
 use std::fs;
 use std::path::{Path, PathBuf};
@@ -45,6 +47,19 @@ impl WalPathManager {
 
     pub(crate) fn create_new_file(&self) -> std::io::Result<String> {
         self.ensure_root()?;
+        // Recovery replays files in name order, so a new file must sort after every file that
+        // is already there even if the clock went backwards between runs.
+        if let Ok(dir) = fs::read_dir(&self.root) {
+            for entry in dir.flatten() {
+                if let Some(name) = entry.file_name().to_str() {
+                    if !name.is_empty() && name.bytes().all(|b| b.is_ascii_digit()) {
+                        if let Ok(ms) = name.parse::<u64>() {
+                            note_existing_file_millis(ms);
+                        }
+                    }
+                }
+            }
+        }
         let file_name = now_millis_str();
         let path = self.root.join(&file_name);
         #[cfg(walrus_verif)]
